@@ -1,6 +1,6 @@
 """C02 - value conservation / P&L attribution (per operation and per date)."""
 from .. import mon1
-from .. import mon2
+from .. import common, instrument as ins, mon2, w5
 from . import _w1case, _w2case
 
 ID = "C02"
@@ -15,14 +15,48 @@ ASSUMPTIONS = ["commission functions are harness-owned pure functions re-evaluat
 def plan(tier):
     n = 1500 if tier == "quick" else 40000
     m = 400 if tier == "quick" else 10000
-    return [dict(unit="w1", n=n, builds=["py", "so"], case_timeout=60), dict(unit="w2", n=m, builds=["py", "so"], case_timeout=120)]
+    return [dict(unit="w1", n=n, builds=["py", "so"], case_timeout=60), dict(unit="w2", n=m, builds=["py", "so"], case_timeout=120),
+            dict(unit="w5", n=m // 2, builds=["py", "so"], case_timeout=120)]
 
 
 def floors(tier):
-    return {"min_decided": 300, "counters": {"conservation_op_evals": 5000, "conservation_date_evals": 1000, "trades": 500, "c02_date_evals": 10000}, "max_undecided_frac": 0.4}
+    return {"min_decided": 300, "counters": {"conservation_op_evals": 5000, "conservation_date_evals": 1000, "trades": 500, "c02_date_evals": 10000, "coupon_accruals": 500}, "max_undecided_frac": 0.4}
+
+
+def run_w5(cs):
+    """fixed-income backtests: coupons less holding costs accrued on t are paid on t+1"""
+    ins.reset()
+    spec = w5.gen(cs)
+    run = w5.run_backtest(spec)
+    sig = w5.signature(spec)
+    if run.exc is not None:
+        if isinstance(run.exc, ZeroDivisionError) or common.is_guard_exc(run.exc):
+            return common.result(common.OOD, sig=sig, why="zero notional / sizing guard")
+        return common.result(common.INC, sig=sig, why="bt raised %s: %s" % (type(run.exc).__name__, str(run.exc)[:100]))
+    cnt, res = {}, {}
+    secs = {id(s): s for s in ins.securities(run.root)}
+
+    def carry(root, i, pos):
+        c = 0.0
+        for k, p in pos.items():
+            if p != 0 and k in secs:
+                a = w5.accrual(spec, None, secs[k], i, p)
+                if a != 0:
+                    common.bump(cnt, "coupon_accruals")
+                c += a
+        return c
+
+    out = mon2.c02_dates(run, cnt, res, coupons=carry)
+    ntr = sum(1 for e in run.events if e["k"] == "trade")
+    common.bump(cnt, "trades", ntr)
+    if out:
+        return common.result(common.VIOL, sig=sig, nt=True, cnt=cnt, res=res, mech=out[0], witness=dict(out[1], case_seed=cs, fixed_income=True, kinds=spec["kinds"]))
+    return common.result(common.HELD, sig=sig, nt=ntr >= 1, cnt=cnt, res=res, sample=w5.sample_of(spec))
 
 
 def run_case(unit, cs, idx, build, params):
+    if unit == "w5":
+        return run_w5(cs)
     if unit == "w2":
         return _w2case.run_w2(cs, [mon2.c02_dates])
     return _w1case.run_w1(cs, [mon1.Conservation()])
